@@ -212,7 +212,30 @@ func (c *seeCtx) of1(v ssa.Value) *Expr {
 			return &Expr{Op: OpUn, Tok: v.Op, Name: v.Op.String(), Args: []*Expr{c.of(v.X)}}
 		}
 	case *ssa.BinOp:
-		return &Expr{Op: OpBin, Tok: v.Op, Name: v.Op.String(), Args: []*Expr{c.of(v.X), c.of(v.Y)}}
+		x, y, tok := c.of(v.X), c.of(v.Y), v.Op
+		// one spelling for a comparison with a constant: the constant on the right (`0 < r` is `r > 0`)
+		if x.Op == OpConst && y.Op != OpConst {
+			switch tok {
+			case token.EQL, token.NEQ:
+				x, y = y, x
+			case token.LSS:
+				x, y, tok = y, x, token.GTR
+			case token.GTR:
+				x, y, tok = y, x, token.LSS
+			case token.LEQ:
+				x, y, tok = y, x, token.GEQ
+			case token.GEQ:
+				x, y, tok = y, x, token.LEQ
+			}
+		}
+		// b == true, b != false are b; b == false, b != true are !b
+		if (tok == token.EQL || tok == token.NEQ) && y.Op == OpConst && y.Cval != nil && y.Cval.Kind() == constant.Bool {
+			if constant.BoolVal(y.Cval) == (tok == token.EQL) {
+				return x
+			}
+			return &Expr{Op: OpUn, Tok: token.NOT, Name: "!", Args: []*Expr{x}, Typ: v.Type()}
+		}
+		return &Expr{Op: OpBin, Tok: tok, Name: tok.String(), Args: []*Expr{x, y}}
 	case *ssa.ChangeType:
 		return c.of(v.X)
 	case *ssa.ChangeInterface:
